@@ -515,7 +515,7 @@ def check_history(case, stats):
 
 
 CHECKS = {'check_history': check_history}
-_B = {'quick': (30, 12), 'thorough': (200, 25)}
+_B = {'quick': (30, 12), 'thorough': (300, 25)}
 
 
 def shards(tier):
